@@ -69,10 +69,21 @@ type wCrash struct {
 	Old    *shape     `json:"old"` // nil: no session file exists before the save
 	New    shape      `json:"new"`
 	Choice vos.Choice `json:"crash"`
+	// FailCall k >= 1: the k-th system call of the save fails (EIO, no effect; FailHalf: a write performs half of its
+	// bytes and fails with ENOSPC). The save then runs its error path (and returns an error or not); the crash points are
+	// those of the resulting system-call log.
+	FailCall int  `json:"fail_syscall,omitempty"`
+	FailHalf bool `json:"fail_after_half_write,omitempty"`
 }
 
 // scenario runs the save of w.New over w.Old on a fresh vos file system and returns it (log filled).
 func scenario(old *shape, nw shape) (fsys *vos.FS, path string, oldData, newData *session.Data, oldBytes, newBytes []byte) {
+	fsys, path, oldData, newData, oldBytes, newBytes, _ = scenarioF(old, nw, 0, false)
+	return
+}
+
+// scenarioF is scenario with the failCall-th system call of the save failing (0: none); saveErr is what Save returned.
+func scenarioF(old *shape, nw shape, failCall int, half bool) (fsys *vos.FS, path string, oldData, newData *session.Data, oldBytes, newBytes []byte, saveErr error) {
 	ctx := context.Background()
 	fsys = vos.New()
 	path = fsys.Root() + "/session.json"
@@ -95,8 +106,11 @@ func scenario(old *shape, nw shape) (fsys *vos.FS, path string, oldData, newData
 	fsys.Checkpoint() // the previous session is durable
 	newData = mkData(nw)
 	newBytes = encoded(newData)
-	if err := ld.Save(ctx, newData); err != nil {
-		infra("save of the new session failed on vos: %v", err)
+	if failCall > 0 {
+		fsys.FailCall(failCall-1, half)
+	}
+	if saveErr = ld.Save(ctx, newData); saveErr != nil && failCall == 0 {
+		infra("save of the new session failed on vos: %v", saveErr)
 	}
 	if len(fsys.Log()) == 0 {
 		infra("StoreSession left no trace in vos: session/storage_file.go was not built against lib/vos (PREBUILD overlay missing or overridden)")
@@ -113,7 +127,7 @@ func evalCrash(powerLoss bool) func(w wCrash) kit.Result {
 			return kit.Result{Trivial: true, Outcome: "wrong-family"}
 		}
 		ctx := context.Background()
-		fsys, path, oldData, newData, oldBytes, newBytes := scenario(w.Old, w.New)
+		fsys, path, oldData, newData, oldBytes, newBytes, saveErr := scenarioF(w.Old, w.New, w.FailCall, w.FailHalf)
 		defer fsys.Unmount()
 		img, err := fsys.Image(w.Choice)
 		if err != nil {
@@ -129,8 +143,17 @@ func evalCrash(powerLoss bool) func(w wCrash) kit.Result {
 		if w.Old == nil {
 			pre = "first-save-"
 		}
+		if w.FailCall > 0 {
+			pre = "syscall-error:" + pre
+		}
 		res := func(r kit.Result) kit.Result {
 			r.Key = fmt.Sprintf("%v/%v/%v/%s", w.Old, w.New, powerLoss, key)
+			if w.FailCall > 0 {
+				r.Key += fmt.Sprintf("/fail%d/%v", w.FailCall, w.FailHalf)
+				if r.Class == "" {
+					r.Outcome = "after-failed-syscall:" + r.Outcome
+				}
+			}
 			return r
 		}
 		switch {
@@ -166,6 +189,9 @@ func evalCrash(powerLoss bool) func(w wCrash) kit.Result {
 		if powerLoss {
 			what = "power loss"
 		}
+		if w.FailCall > 0 {
+			what = fmt.Sprintf("system call %d of the save failed (save returned err=%v), then %s", w.FailCall, saveErr, what)
+		}
 		return res(kit.Bad(pre+kind, "%s at %+v: LoadSession -> %d bytes, err=%v; Loader.Load -> err=%v; "+
 			"previous session %d bytes, new session %d bytes; neither is what the file holds.\nsave log:\n%spost-crash disk:\n%s",
 			what, w.Choice, len(raw), rerr, lerr, len(oldBytes), len(newBytes), fsys.DescribeLog(), truncate(key, 600)))
@@ -196,6 +222,9 @@ func main() {
 			"distinct = distinct (pair, model, resulting disk image). Oracle: the real FileStorage.LoadSession on the image returns A's or B's " +
 			"bytes (or Loader.Load returns A's or B's Data; for a first save: not-found/empty or B). " +
 			"family vos-selftest: every sequence of 2 (thorough 3) calls of a 21-call alphabet run on vos and on the real os in a temp dir, same observations.")
+		c.Rule("families crash/powerloss, failing system calls: for every pair above and every system call k of the fault-free save, the save is run with call k failing (EIO without effect; a write " +
+			"also as a short write of half its bytes with ENOSPC) - the save runs its error handling - and every crash image of the resulting log is judged by the same oracle (torn writes cut at 1, len-1 and " +
+			"l-1,l,l+1 for the session lengths l; classes prefixed syscall-error:). What a failed save returns is not judged; the file after it (crash image with the whole log) is.")
 		c.Rule("family history: sequences of 2 (thorough also 3) saves with sessions of different lengths (longer then shorter, shorter then longer, " +
 			"equal, first save; quick 4 sequences, thorough every ordered triple of 4 shapes + 4 first-save sequences + 4 sequences of 3 saves): for every distinct " +
 			"post-crash disk of an earlier save (crash and power-loss models; every system call; torn writes cut at 1, len-1 and l-1,l,l+1 for the lengths l of " +
@@ -236,7 +265,7 @@ func main() {
 				pairs = append(pairs, pair{nil, shapes[i]})
 			}
 		}
-		var total, subsetsCapped int64
+		var total, subsetsCapped, faultCases int64
 		for _, p := range pairs {
 			fsys, _, _, _, ob, nb := scenario(p.old, p.nw)
 			fsys.Unmount()
@@ -257,11 +286,41 @@ func main() {
 					power.Eval(w)
 				}
 			})
+			// 2b. one failing system call: every call of the fault-free save in turn (writes also as a short write), then
+			// every crash point of the log that the save's error handling produced (torn writes at the boundary alphabet)
+			nCalls := len(fsys.Log())
+			lens := []int{len(nb)}
+			if p.old != nil {
+				lens = append(lens, len(ob))
+			}
+			for k := 1; k <= nCalls; k++ {
+				for _, half := range []bool{false, true} {
+					if half && fsys.Log()[k-1].Kind != "write" {
+						continue
+					}
+					ff, _, _, _, _, _, _ := scenarioF(p.old, p.nw, k, half)
+					ff.Unmount()
+					var fcs []vos.Choice
+					ff.EnumerateAt(false, lens, func(ch vos.Choice) { fcs = append(fcs, ch) })
+					nc := len(fcs)
+					ff.EnumerateAt(true, lens, func(ch vos.Choice) { fcs = append(fcs, ch) })
+					faultCases += int64(len(fcs))
+					kit.Parallel(len(fcs), 16, func(i int) {
+						w := wCrash{Old: p.old, New: p.nw, Choice: fcs[i], FailCall: k, FailHalf: half}
+						if i < nc {
+							crash.Eval(w)
+						} else {
+							power.Eval(w)
+						}
+					})
+				}
+			}
 			if c.Expired() {
 				c.NotExhaustive("time budget hit after %d crash images", total)
 				break
 			}
 		}
+		c.Set("crash_images_after_a_failed_syscall", faultCases)
 		// 3. histories of saves over post-crash disks
 		{
 			a, b, a2, m := shape{2, 0, 7}, shape{4, 3, -1234567890123}, shape{2, 0, 9}, shape{3, 1, 123456}
